@@ -175,6 +175,60 @@ def check_docs(ctx, cases):
         ctx.sample({'doc': c['doc'][:200], 'errors': len(E), 'first': E[0] if E else None}, cap=4)
 
 
+# ------------------------------------------------------------------ imported-namespace roots and location hints
+def subject_hints(case):
+    """package-level functions called with a schema instance must use that schema also when the document root is in
+    a namespace the schema only imports and the document carries a resolvable xsi:schemaLocation hint"""
+    import xmlschema
+    d = tmpdir()
+    imp = os.path.join(d, 'imp.xsd')
+    other = os.path.join(d, 'other.xsd')
+    main = os.path.join(d, 'main.xsd')
+    with open(imp, 'w') as f:
+        f.write('<xs:schema xmlns:xs="http://www.w3.org/2001/XMLSchema" targetNamespace="urn:imp">'
+                '<xs:element name="e" type="xs:integer"/></xs:schema>')
+    with open(other, 'w') as f:     # a permissive declaration of the same element
+        f.write('<xs:schema xmlns:xs="http://www.w3.org/2001/XMLSchema" targetNamespace="urn:imp">'
+                '<xs:element name="e" type="xs:string"/></xs:schema>')
+    with open(main, 'w') as f:
+        f.write('<xs:schema xmlns:xs="http://www.w3.org/2001/XMLSchema" targetNamespace="urn:main">'
+                '<xs:import namespace="urn:imp" schemaLocation="imp.xsd"/><xs:element name="m" type="xs:string"/></xs:schema>')
+    cls = xmlschema.XMLSchema11 if case['version'] == '11' else xmlschema.XMLSchema10
+    s = cls(main)
+    doc = ('<i:e xmlns:i="urn:imp" xmlns:xsi="http://www.w3.org/2001/XMLSchema-instance" '
+           'xsi:schemaLocation="urn:imp %s">%s</i:e>' % (other if case['hint'] else 'nowhere.xsd', case['value']))
+    out = {}
+    for name, fn in (('method', lambda: s.is_valid(doc)), ('package', lambda: xmlschema.is_valid(doc, s)),
+                     ('package-errors', lambda: len(list(xmlschema.iter_errors(doc, s)))),
+                     ('method-errors', lambda: len(list(s.iter_errors(doc)))),
+                     ('package-to_dict', lambda: canon(xmlschema.to_dict(doc, s, validation='lax')[0])),
+                     ('method-to_dict', lambda: canon(s.to_dict(doc, validation='lax')[0]))):
+        try:
+            out[name] = fn()
+        except Exception as e:  # noqa
+            out[name] = 'EXC ' + common.exc_class(e)
+    for f in (imp, other, main):
+        os.unlink(f)
+    return out
+
+
+def check_hints(ctx):
+    cases = [{'version': v, 'hint': h, 'value': val} for v in ('10', '11') for h in (True, False) for val in ('12', 'abc', '')]
+    impl = common.pool_map(subject_hints, cases, procs=4)
+    for c, o in zip(cases, impl):
+        ctx.count(('hints', c['version'], c['hint'], c['value']), nontrivial=c['value'] != '12')
+        if 'harness_exception' in o:
+            ctx.violation('hints subject failed: %s' % o['harness_exception'], {'kind': 'hints', 'case': c}, no_input=True)
+            continue
+        for a, b in (('method', 'package'), ('method-errors', 'package-errors'), ('method-to_dict', 'package-to_dict')):
+            if o[a] != o[b]:
+                ctx.violation('document <i:e>%s</i:e> in an imported namespace with%s a resolvable location hint (XSD %s): '
+                              'schema.%s gives %s, the package-level function with the same schema gives %s'
+                              % (c['value'], '' if c['hint'] else 'out', c['version'], a, o[a], o[b]),
+                              {'kind': 'hints', 'case': c, 'impl': o})
+                break
+
+
 # ------------------------------------------------------------------ CLI
 def cli_doc(n_errors):
     items = ''.join('<t:item><t:n>x</t:n></t:item>' for _ in range(n_errors)) or '<t:item><t:n>1</t:n></t:item>'
@@ -262,6 +316,7 @@ def run(ctx):
                     'xsi, namespace faults) x 9 source kinds x 14 entry points / modes x both schema classes; CLI on 11 '
                     'file sets with 0..512 errors; non-trivial = invalid document (or a CLI run with errors)')
         check_docs(ctx, gen(ctx))
+        check_hints(ctx)
         check_cli(ctx)
     finally:
         cleanup()
@@ -275,6 +330,8 @@ def replay(ctx, case):
     try:
         if case.get('kind') == 'cli':
             check_cli(ctx)
+        elif case.get('kind') == 'hints':
+            check_hints(ctx)
         else:
             check_docs(ctx, [case['case']])
     finally:
